@@ -58,15 +58,55 @@ def abstract_msg(kind, mid):
     return m
 
 
-def render_docs(docs, seed, cid):
+# The message IDs of the model are small naturals; what the documents carry is their image under a strictly increasing
+# map (gamma), so that the numeric order is the model's order whatever the digit count or sign, and what the code
+# reports is mapped back (alpha) before TLC judges it.
+MID_STYLES = {"plain": lambda m: m,
+              "neg": lambda m: m - 12,              # negative ids, zero, positive ids
+              "big": lambda m: m + 2 ** 53,         # 16 digits: neighbours are not distinct as floats
+              "wide": lambda m: m + 10 ** 10}       # 11 digits: beyond 32 bits
+UNKNOWN_MID = -7
+
+
+def mid_style(seed, cid):
+    return random.Random("%s|%s|midstyle" % (seed, cid)).choice(["plain", "plain", "neg", "big", "wide"])
+
+
+def mid_maps(docs, style):
+    f = MID_STYLES[style]
+    inv = {f(d["mid"]): d["mid"] for d in docs}
+    return f, (lambda x: inv.get(x, UNKNOWN_MID))
+
+
+def render_docs(docs, seed, cid, style="plain"):
     g = Gamma("%s|%s" % (seed, cid))
+    f = MID_STYLES[style]
     texts = []
     for d in docs:
         if d["kind"] == "roCreate":
-            texts.append(g.ro(ro_shape(d["mid"], d["roid"])))
+            texts.append(g.ro(ro_shape(f(d["mid"]), d["roid"])))
         else:
-            texts.append(g.msg(abstract_msg(d["kind"], d["mid"]), message_id=d["mid"], ro_id=d["roid"]))
+            texts.append(g.msg(abstract_msg(d["kind"], d["mid"]), message_id=f(d["mid"]), ro_id=d["roid"]))
     return texts
+
+
+def encode_doc(text, enc):
+    """the document in another encoding, with the declaration / byte-order mark XML requires and one character that
+    is not valid UTF-8 in that encoding; falls back to UTF-16 when ISO-8859-1 cannot express the content"""
+    body = text.split("?>", 1)[1] if text.startswith("<?xml") else text
+    if enc == "iso-8859-1":
+        try:
+            return ('<?xml version="1.0" encoding="ISO-8859-1"?>' + body + "<!--\xe9-->").encode("iso-8859-1")
+        except UnicodeEncodeError:
+            enc = "utf-16"
+    if enc == "utf-16":
+        return (body + "<!--\xe9-->").encode("utf-16")
+    return text
+
+
+def encode_docs(texts, seed, cid):
+    r = random.Random("%s|%s|enc" % (seed, cid))
+    return [encode_doc(t, r.choice(["utf-8", "utf-8", "utf-8", "iso-8859-1", "utf-16"])) for t in texts]
 
 
 # ------------------------------------------------------------------------------------------
@@ -140,14 +180,17 @@ def run_collection(cid, docs, allow, strict, via, seed, tracer, tmproot):
     from mosromgr.moscollection import MosCollection
     from mosromgr.mostypes import MosFile, RunningOrder
     from mosromgr import exc
-    texts = render_docs(docs, seed, cid)
-    ev = {"id": cid, "docs": docs, "allow": allow, "strict": strict, "via": via, "flags": via,
+    style = mid_style(seed, cid)
+    f, back = mid_maps(docs, style)
+    texts = encode_docs(render_docs(docs, seed, cid, style), seed, cid)     # str, or bytes in another encoding
+    as_bytes = lambda t: t if isinstance(t, bytes) else t.encode("utf-8")
+    ev = {"id": cid, "docs": docs, "allow": allow, "strict": strict, "via": via, "flags": via, "mid_style": style,
           "accepted": "ok", "ro_mid": -1, "reader_mids": [], "merged": False, "steps": [], "raised": NONE,
           "nwarn": 0, "fold_eq": True, "completed": False, "reader_ok": True, "sorted_mids": []}
     try:
         with warnings.catch_warnings():
             warnings.simplefilter("ignore")
-            ev["sorted_mids"] = [o.message_id for o in sorted(MosFile.from_string(t) for t in texts)]
+            ev["sorted_mids"] = [back(o.message_id) for o in sorted(MosFile.from_string(t) for t in texts)]
     except Exception as e:  # noqa: BLE001
         ev["sorted_mids"] = [-1]
     tmpdir = None
@@ -157,6 +200,16 @@ def run_collection(cid, docs, allow, strict, via, seed, tracer, tmproot):
             try:
                 if via == "strings":
                     mc = MosCollection.from_strings(texts, allow_incomplete=allow)
+                elif via == "readers":
+                    # the documented constructor, given a sorted list of readers the caller keeps: trying the complete
+                    # collection first and then the requested one must not change what the list describes
+                    from mosromgr.moscollection import MosReader
+                    readers = sorted(MosReader.from_string(t) for t in texts)
+                    try:
+                        MosCollection(readers, allow_incomplete=False)
+                    except exc.InvalidMosCollection:
+                        pass
+                    mc = MosCollection(readers, allow_incomplete=allow)
                 elif via == "files":
                     # the same file names are used for every collection this process builds (a re-export to the same
                     # paths): nothing may be remembered about a path from an earlier collection
@@ -167,13 +220,13 @@ def run_collection(cid, docs, allow, strict, via, seed, tracer, tmproot):
                     paths = []
                     for i, t in enumerate(texts):
                         p = os.path.join(tmpdir, "f%02d.mos.xml" % i)
-                        with open(p, "w", encoding="utf-8") as f:
-                            f.write(t)
+                        with open(p, "wb") as fh:
+                            fh.write(as_bytes(t))
                         paths.append(p)
                     mc = MosCollection.from_files(paths, allow_incomplete=allow)
                 else:
                     # keys are named so that key order is the supply order; extra non-matching keys are present
-                    bucket = {"pre/f%02d.mos.xml" % i: t.encode("utf-8") for i, t in enumerate(texts)}
+                    bucket = {"pre/f%02d.mos.xml" % i: as_bytes(t) for i, t in enumerate(texts)}
                     bucket["pre/readme.txt"] = b"not a mos file"
                     bucket["other/f00.mos.xml"] = b"<mos/>"
                     install_fake_s3(FakeS3({"bkt": bucket}, page_size=2))
@@ -181,8 +234,8 @@ def run_collection(cid, docs, allow, strict, via, seed, tracer, tmproot):
             except Exception as e:  # noqa: BLE001
                 ev["accepted"] = status_name(e)
                 return ev, []
-        ev["ro_mid"] = mc.ro.message_id
-        ev["reader_mids"] = [mr.message_id for mr in mc.mos_readers]
+        ev["ro_mid"] = back(mc.ro.message_id)
+        ev["reader_mids"] = [back(mr.message_id) for mr in mc.mos_readers]
         # C18: readers are faithful and restore fresh, equal objects
         ok = True
         for mr in mc.mos_readers:
@@ -228,7 +281,7 @@ def run_collection(cid, docs, allow, strict, via, seed, tracer, tmproot):
             ev["nwarn"] = sum(1 for x in w if x.category is exc.MosMergeNonStrictWarning)
         steps = tracer.take()
         ev["merged"] = True
-        ev["steps"] = [{"mid": s["mid"], "status": s["status"]} for s in steps]
+        ev["steps"] = [{"mid": back(s["mid"]), "status": s["status"]} for s in steps]
         ev["raised"] = status_name(err)
         ev["fold_eq"] = (str(mc) == str(ref)) and ((ref_err is None) == (err is None))
         ev["completed"] = bool(mc.completed)
@@ -291,11 +344,11 @@ def run(report, tier, seed, want, step_props=()):
     colls, st = generate(tier, report.prop)
     tmproot = tlc.workdir("coll-tmp-" + report.prop)
     todo = []
-    vias = ("strings", "files", "s3")
+    vias = ("strings", "files", "s3", "readers")
     for i, c in enumerate(colls):
         for j, via in enumerate(vias):
             # every collection through every constructor for short lists; rotate for the long ones (quick tier)
-            if tier == "thorough" or len(c["docs"]) <= 2 or (i % 3) == j:
+            if (tier == "thorough" and len(c["docs"]) <= 9) or len(c["docs"]) <= 2 or (i % len(vias)) == j:
                 todo.append(("c%d.%s" % (i, via), c, via))
     chunks = [(todo[k:k + 100], seed, tmproot) for k in range(0, len(todo), 100)]
     ctx = multiprocessing.get_context("fork")
@@ -308,7 +361,9 @@ def run(report, tier, seed, want, step_props=()):
     for i, c in enumerate(colls):
         if c["strict"]:
             continue        # acceptance does not depend on strict: once per (docs, allow)
-        batch.append(("c%d.O" % i, render_docs(c["docs"], seed, "c%d.O" % i), c["allow"]))
+        if len(c["docs"]) > 9 and i % 5:
+            continue
+        batch.append(("c%d.O" % i, render_docs(c["docs"], seed, "c%d.O" % i, mid_style(seed, "c%d.O" % i)), c["allow"]))
     p = subprocess.run(["/venv/bin/python", "-O", "-c", O_DRIVER], input=json.dumps(batch), capture_output=True,
                        text=True, timeout=1200)
     if p.returncode != 0:
@@ -317,6 +372,8 @@ def run(report, tier, seed, want, step_props=()):
     byc = {"c%d.O" % i: c for i, c in enumerate(colls)}
     for cid, (acc, ro_mid, rmids) in got.items():
         c = byc[cid]
+        _, back = mid_maps(c["docs"], mid_style(seed, cid))
+        ro_mid, rmids = (back(ro_mid) if acc == "ok" else -1), [back(x) for x in rmids]
         events.append({"id": cid, "docs": c["docs"], "allow": c["allow"], "strict": c["strict"], "via": "strings",
                        "flags": "python-O", "accepted": acc, "ro_mid": ro_mid, "reader_mids": rmids, "merged": False,
                        "steps": [], "raised": NONE, "nwarn": 0, "fold_eq": True, "completed": False, "reader_ok": True,
